@@ -19,6 +19,7 @@ RULE = ("case = random union of 2-4 members in ARBITRARY declaration order over 
         "Oracle decode: outcome == REF_UNION_DECODE(U, d) incl. the raise case, via codec and dataclass field "
         "(InvalidFieldValue). Oracle encode: encode_U(v) == encode_member(v) for values generated from a known member. "
         "distinct_nontrivial = distinct (union shape, input fingerprint) pairs.")
+RULE += " Additions: members refusing with exceptions of their own making; nullable root shapes of codecs with a wire decoder; NamedTuple members of union fields with an engine option; F20 attributed only where the document equals the rendering by the first earlier member that does not raise."
 ASSUMPTIONS = ["REF_UNION_DECODE: one declaration-order pass (basic scalars by exact type, others by try), then scalar coercions "
                "in declaration order; a null member matches only null (DESIGN §3.1)",
                "Literal matching uses Python equality and returns the listed constant"]
